@@ -9,7 +9,11 @@ syntax-directed alphabet is fed to the public entry point(s) of its family:
     markup  rich.markup.render                           -> returns | MarkupError
             Console.print(s)            (markup on)      -> returns | MarkupError
     text    Text(s), Console.print(s, markup=False) at widths 80, 2, 1 -> returns
-    ansi    list(AnsiDecoder().decode(s))                -> returns
+    ansi    list(AnsiDecoder().decode(s)), then Console.print of every decoded line -> returns
+            (alphabet: DESIGN's tokens + composite multi-parameter SGR forms "38;2" "48;2" "38;5"
+            "48;5" "\\x1b[38;2;1;2", a complete run "\\x1b[1m", "\\x1b]8;;", and a control character
+            that Text strips; markup has the stripped control character too -- a parse result
+            that is only wrong when rendered is printed, not just built)
 
 Part "tree": every renderable tree of a chain grammar (leaf | container(leaf)
 | container(container(leaf)) in thorough; multi-child containers get fixed
@@ -21,12 +25,14 @@ Anything else (any other exception type, or > 5 s in one call) is a violation
 with finding key  <entry point>/<ExcType>/<file>:<function that raised>.
 
 Measured (CPU seconds summed over shards; the build machine was heavily loaded):
-quick      977,081 calls (12,035 trees x 26 widths x 2 + 351,261 token calls), 637 outcome
-           signatures, ~310 CPU-s (52 s wall with 6 workers; ~20-25 s on 16 idle cores)
-thorough   70,200,379 calls (86,471 trees; 41.3 M token strings), 1,392 signatures,
-           ~9,400 CPU-s measured under load 130 (~10 min on 16 idle cores)
-Detection: 13 of 15 source edits reported (narrowed/dropped except clauses in style.py,
-console.py, markup.py, ansi.py; removed width/emptiness guards in console.render,
+quick      1,369,860 calls (12,035 trees x 26 widths x 2 + 744,040 token calls on 375,397 strings),
+           649 outcome signatures, ~345 CPU-s (tok 72, tree 273; ~22 s wall on 16 idle cores)
+thorough   86,968,011 calls (86,471 trees; 49.7 M token strings: color 17.9 M, style 5.2 M,
+           markup 12.2 M, text 1.9 M, ansi 4.3 M at <=5 + 8.1 M of DESIGN's alphabet at <=6);
+           ~11,000 CPU-s measured under load 40-130 (markup+ansi 3,864, trees 4,600, rest
+           ~2,500; ~12 min on 16 idle cores)
+Detection: 13 of 15 own source edits + 2 independently seeded ones reported (narrowed/dropped
+except clauses in style.py, console.py, markup.py, ansi.py; removed width/emptiness guards in console.render,
 table._measure_column, progress_bar, segment.get_shape, containers.justify; a widened regex in
 color.py; a non-terminating chop_cells); the two silent ones (Measurement.get guard,
 ratio_reduce guard) cannot raise for any tree of the grammar.
@@ -286,6 +292,8 @@ def check_string(fam, s, res):
             v = v or []
             res.sig(("ansi.decode", "ok", min(len(v), 3), any(t.spans for t in v), any(t.plain for t in v)),
                     nontrivial=bool(s))
+            if fam == "ansi6":      # decode only; printing is explored on the richer "ansi" alphabet
+                return
             # errors in what the decoder built only surface when the Text is rendered
             con = console(80)
 
@@ -714,7 +722,7 @@ def describe(tier, seed, res):
                 "container kinds, width class, outcome class) signatures."
                 % (L, len(ALPHA["color"]), len(ALPHA["style"]), len(ALPHA["markup"]), len(ALPHA["text"]),
                    len(ALPHA["ansi"]),
-                   "" if tier == "quick" else " up to 5 tokens, plus the 14-token alphabet of DESIGN.md up to 6",
+                   "" if tier == "quick" else " up to 5 tokens, plus the 14-token alphabet of DESIGN.md up to 6 (decode only)",
                    "" if tier == "quick" else " | container(container(leaf)) (first layout, core option menu)",
                    len(TEXTS_Q if tier == "quick" else TEXTS_T),
                    "; quick uses the core option menu for Table and Columns" if tier == "quick" else ""),
